@@ -137,6 +137,12 @@ func (v *version) opObj(b []byte, reached bool) {
 		}
 		return hexS(vec) + " " + strconv.Itoa(v.lenVec(b)) + " " + v.gets(b) + " " + v.roundTrip(b) + " " + nm
 	}))
+	v.opEq(b, pick(v.metrics).abv)
+}
+
+// Go-level equality after a history of non-mutating calls (C07, last sentence)
+func (v *version) opEq(b []byte, abv string) {
+	emit("Q "+v.name+" "+hexB(b)+" "+hexS(abv), guard(func() string { return v.eqhist(b, abv) }))
 }
 
 // ---------------------------------------------------------------------------------------------
@@ -236,6 +242,8 @@ func replay(a []string) {
 		verByName(a[1]).opGet([]byte(unhex(a[2])), unhex(a[3]))
 	case "O":
 		verByName(a[1]).opObj([]byte(unhex(a[2])), len(a) > 3 && a[3] == "1")
+	case "Q":
+		verByName(a[1]).opEq([]byte(unhex(a[2])), unhex(a[3]))
 	case "F":
 		verByName(a[1]).opScore([]byte(unhex(a[2])))
 	case "R":
